@@ -48,3 +48,6 @@ def check(chk, repo):
     # premise: the weights that compete are the configured dissimilarity (flag, matrix and node pair of every selector)
     from .c10 import check_walk_selectors
     check_walk_selectors(rep, repo, 'model', 'SupervisedOPF', 'fit', set(), pre="WEIGHT:")
+    # ... and the node pair names the caller's rows: a node's id is I[i] (the row number only when no index array was given)
+    from .c10 import check_row_ids
+    check_row_ids(chk, rep, repo, only={"Subgraph._build"}, floor=1)
